@@ -161,6 +161,17 @@ func (c *Context) Scheduler() vivid.Scheduler {
 	return c.scheduler
 }
 
+// lockChildren 保护根 Actor 的 children：System.ActorOf 由任意外部协程在 actorOfLock 下写入，
+// 而子 Actor 死亡、停止时根 Actor 在自己的邮箱协程中读写同一张表，二者必须互斥。
+// 其他 Actor 的 children 只会在其自身的消息处理中访问，无需加锁。
+func (c *Context) lockChildren() (unlock func()) {
+	if c.system == nil || c.system.Context != c {
+		return func() {}
+	}
+	c.system.actorOfLock.Lock()
+	return c.system.actorOfLock.Unlock
+}
+
 func (c *Context) ActorOf(actor vivid.Actor, options ...vivid.ActorOption) (vivid.ActorRef, error) {
 	var status = atomic.LoadInt32(&c.state)
 	if status == killed {
@@ -568,11 +579,13 @@ func (c *Context) doKill(message *vivid.OnKill, behavior vivid.Behavior) {
 	c.system.removeFuturesByAgentPath(c.ref.GetPath(), vivid.ErrorActorDeaded)
 
 	// 等待所有子 Actor 结束，假设是重启，子 Actor 不应该跟随重启，应该由父节点决定是否重启
+	unlockChildren := c.lockChildren()
 	verifhook.At("ctx.children.r", c, nil)
 	for _, child := range c.children {
 		c.Logger().Debug("notify child kill", log.String("path", child.GetPath()))
 		c.Kill(child, message.Poison, message.Reason)
 	}
+	unlockChildren()
 
 	// 宣告自己进入死亡中
 	if c.restarting != nil {
@@ -669,6 +682,7 @@ func (c *Context) Kill(ref vivid.ActorRef, poison bool, reason ...string) {
 }
 
 func (c *Context) Children() vivid.ActorRefs {
+	defer c.lockChildren()()
 	verifhook.At("ctx.children.r", c, nil)
 	children := make(vivid.ActorRefs, 0, len(c.children))
 	for _, child := range c.children {
